@@ -130,7 +130,7 @@ class C17(Check):
             else:
                 old, new = rng.choice(X.NSS), rng.choice(X.NSS + ['urn:new'])
                 # avoid attribute collisions after renaming (premise)
-                out.append({'kind': 'replace', 'tree': X.gen_tree(rng, comments=True), 'old': old, 'new': new})
+                out.append({'kind': 'replace', 'tree': X.gen_tree(rng, comments=True, pis=(rng.random() < 0.4)), 'old': old, 'new': new})
         from props import C07 as P7
         for i in range(n // 2):
             out.append({'kind': 'plain', 'tree': P7.plain_tree(rng), 'cut': rng.randrange(100)})
@@ -256,7 +256,10 @@ class C17(Check):
                 return {'ok': False}
         if k == 'replace':
             el = X.to_lxml(case['tree'])
-            nx.replace_namespace(el, case['old'], case['new'])
+            try:
+                nx.replace_namespace(el, case['old'], case['new'])
+            except Exception as e:
+                return {'tree': None, 'raised': type(e).__name__ + ': ' + str(e)[:80]}
             return {'tree': X.canon(X.from_lxml(el))}
 
     def _clash(self, case):
@@ -379,6 +382,8 @@ class C17(Check):
                 return ('C17:validated-element', 'validated_element %s a document that %s the requirements' % ('accepted' if io['ok'] else 'rejected', 'meets' if want else 'does not meet'))
             return None
         if k == 'replace':
+            if io.get('raised'):
+                return ('C17:replace-namespace-raised', 'replace_namespace(%r -> %r) raised %s on a well-formed tree' % (case['old'], case['new'], io['raised']))
             if self._clash(case):
                 return None
             want = X.canon(spec_replace(case['tree'], case['old'], case['new']))
